@@ -118,4 +118,12 @@ MemChecks(cfg, pre, post, ln) ==
            \cup { Chk("C06", "after-a-throw:exactly-size()-live-elements,no-block-leaked", ln.out = "injected",
                       \A e \in errs : e[1] \notin {"C03", "C04"}) }
 
+\* C05 promises more than unchanged contents: "... and nothing leaked".  Where L1 saw a strong call fail (the antecedent of
+\* strong:elements-unchanged held), the L0 verdict on that very call -- no object outside size(), no block without owner --
+\* is also a C05 verdict.  l1 / l0 are the check sets of the line.
+StrongLeakChecks(l1, l0) ==
+  IF l0 # {} /\ (\E t \in l1 : t[1] = "C05" /\ t[2] = "strong:elements-unchanged" /\ t[3] # 2)
+  THEN { <<"C05", "strong:no-element-or-block-leaked", IF \E t \in l0 : t[3] = 0 /\ t[1] \in {"C03", "C04"} THEN 0 ELSE 1>> }
+  ELSE {}
+
 =============================================================================
